@@ -3,6 +3,7 @@
   precomputed tables Ax, C taken from the tree), and HMAC_GOSTR3411_2012_256 (alg-gost3411-2012-hmac.c).
 -/
 import Xc.Prim.Bits
+import Xc.Prim.MD
 import Xc.Gen.Words
 namespace Xc.Streebog
 open Xc
@@ -64,19 +65,42 @@ def absorb (s : St) (m : Bytes) : St × Bytes :=
 termination_by m.length
 decreasing_by simp only [List.length_drop]; omega
 
-def final256 (s : St) (rest : Bytes) : Bytes :=
+/-- stage 3 (`GOST34112012Final` up to the output copy): pad the partial block, fold in `N` and `Sigma` -/
+def finalH (s : St) (rest : Bytes) : V512 :=
   let padded := rest ++ [1] ++ List.replicate (63 - rest.length) 0
   let m := blockOf padded
   let h := g s.h s.N m
   let N := add512 s.N (ofNat512 (8 * rest.length))
   let sigma := add512 s.sigma m
   let h := g h (Array.replicate 8 0) N
-  let h := g h (Array.replicate 8 0) sigma
-  (List.range 4).flatMap fun i => (List.range 8).map fun k => ((h[4 + i]! >>> (8 * k).toUInt64) &&& 0xff).toUInt8
+  g h (Array.replicate 8 0) sigma
+
+def wordBytes (h : V512) (i : Nat) : Bytes := (List.range 8).map fun k => ((h[i]! >>> (8 * k).toUInt64) &&& 0xff).toUInt8
+
+/-- the 256-bit digest is the upper half of the state, the 512-bit digest all of it -/
+def final256 (s : St) (rest : Bytes) : Bytes := let h := finalH s rest; (List.range 4).flatMap fun i => wordBytes h (4 + i)
+def final512 (s : St) (rest : Bytes) : Bytes := let h := finalH s rest; (List.range 8).flatMap fun i => wordBytes h i
+
+def init512 : St := { h := Array.replicate 8 0, N := Array.replicate 8 0, sigma := Array.replicate 8 0 }
 
 def hash256 (m : Bytes) : Bytes :=
   let (s, rest) := absorb init256 m
   final256 s rest
+
+def hash512 (m : Bytes) : Bytes :=
+  let (s, rest) := absorb init512 m
+  final512 s rest
+
+/-! ### the streaming interface (`GOST34112012Init/Update/Final`) in the generic context of Xc/Prim/MD.lean -/
+
+/-- `GOST34112012Update` tops up the 64-byte buffer, runs `stage2` on every complete block and keeps the tail: exactly `MD.update`.
+    The padding fields of `MD.Alg` are not used (Streebog finishes with `finalH`, not with Merkle–Damgård strengthening). -/
+def alg (iv : St) : MD.Alg St := { block := 64, lenBytes := 0, bigEndian := false, iv := iv, compress := stage2, out := fun _ => [] }
+
+def streamed256 (chunks : List Bytes) : Bytes :=
+  let c := chunks.foldl (MD.update (alg init256)) (MD.init (alg init256)); final256 c.st c.buf
+def streamed512 (chunks : List Bytes) : Bytes :=
+  let c := chunks.foldl (MD.update (alg init512)) (MD.init (alg init512)); final512 c.st c.buf
 
 /-- `gost_hmac256 (k, n, t, len, out32)` for 32 ≤ n ≤ 64 -/
 def hmac256 (k t : Bytes) : Bytes :=
